@@ -244,17 +244,17 @@ macro_rules! axle_cmd_harness {
         }
     };
 }
-//@ob fn="<Axle<N,E> as Updatable<E>>::update" at=src/devices.rs:295 bounded="axle size 1" clause="N=1: a present command is rewritten unchanged (value bits, kind, timestamp); absent: nothing written"
+//@ob fn="<Axle<N,E> as Updatable<E>>::update" at=src/devices.rs:295 instance="axle size 1" clause="N=1: a present command is rewritten unchanged (value bits, kind, timestamp); absent: nothing written"
 axle_cmd_harness!(c13_axle_1, 1, 3);
-//@ob fn="<Axle<N,E> as Updatable<E>>::update" at=src/devices.rs:295 bounded="axle size 2" clause="N=2, all 4 subsets and timestamp orders: every terminal := the command with the largest timestamp among those present (first in terminal order on ties), bit-unchanged value, kind and timestamp; none present: nothing written; reads at every terminal yield it"
+//@ob fn="<Axle<N,E> as Updatable<E>>::update" at=src/devices.rs:295 instance="axle size 2" clause="N=2, all 4 subsets and timestamp orders: every terminal := the command with the largest timestamp among those present (first in terminal order on ties), bit-unchanged value, kind and timestamp; none present: nothing written; reads at every terminal yield it"
 axle_cmd_harness!(c13_axle_2, 2, 4);
-//@ob fn="<Axle<N,E> as Updatable<E>>::update" at=src/devices.rs:295 bounded="axle size 3" clause="N=3, all 8 subsets and timestamp orders: every terminal := newest present command (first wins ties) unchanged; none: nothing; reads yield it"
+//@ob fn="<Axle<N,E> as Updatable<E>>::update" at=src/devices.rs:295 instance="axle size 3" clause="N=3, all 8 subsets and timestamp orders: every terminal := newest present command (first wins ties) unchanged; none: nothing; reads yield it"
 axle_cmd_harness!(c13_axle_3, 3, 5);
-//@ob fn="<Axle<N,E> as Updatable<E>>::update" at=src/devices.rs:295 tier=thorough bounded="axle size 4" clause="N=4, all 16 subsets and timestamp orders: every terminal := newest present command (first wins ties) unchanged; none: nothing; reads yield it"
+//@ob fn="<Axle<N,E> as Updatable<E>>::update" at=src/devices.rs:295 tier=thorough instance="axle size 4" clause="N=4, all 16 subsets and timestamp orders: every terminal := newest present command (first wins ties) unchanged; none: nothing; reads yield it"
 axle_cmd_harness!(c13_axle_4, 4, 6);
-//@ob fn="<Axle<N,E> as Updatable<E>>::update" at=src/devices.rs:295 tier=thorough bounded="axle size 5" clause="N=5, all 32 subsets and timestamp orders: every terminal := newest present command (first wins ties) unchanged; none: nothing; reads yield it"
+//@ob fn="<Axle<N,E> as Updatable<E>>::update" at=src/devices.rs:295 tier=thorough instance="axle size 5" clause="N=5, all 32 subsets and timestamp orders: every terminal := newest present command (first wins ties) unchanged; none: nothing; reads yield it"
 axle_cmd_harness!(c13_axle_5, 5, 7);
-//@ob fn="<Axle<N,E> as Updatable<E>>::update" at=src/devices.rs:295 tier=thorough bounded="axle size 6" clause="N=6, all 64 subsets and timestamp orders: every terminal := newest present command (first wins ties) unchanged; none: nothing; reads yield it"
+//@ob fn="<Axle<N,E> as Updatable<E>>::update" at=src/devices.rs:295 tier=thorough instance="axle size 6" clause="N=6, all 64 subsets and timestamp orders: every terminal := newest present command (first wins ties) unchanged; none: nothing; reads yield it"
 axle_cmd_harness!(c13_axle_6, 6, 8);
 
 // ======================================================================================== Differential
